@@ -254,6 +254,11 @@ const inf = int64(1) << 50
 // Returns (sat, decided).  decided=false when an atom is outside the UTVPI
 // fragment (then nothing may be concluded).
 func feasible(cube Cube) (bool, bool) {
+	for _, a := range cube {
+		if !isUTVPI(a) {
+			return feasibleFM(cube), true
+		}
+	}
 	syms := map[string]int{}
 	for _, a := range cube {
 		for s := range a.C {
@@ -455,6 +460,8 @@ type symEnv struct {
 	cur *symState
 	// initial values of variables (by state key)
 	init map[string]Val
+	// render element reads / slices with their evaluated index forms
+	elemForms bool
 }
 
 type symState struct {
@@ -650,6 +657,9 @@ func (e *symEnv) eval(st *symState, x ast.Expr) Val {
 			if _, isSig := tv.Type.Underlying().(*types.Signature); !isSig {
 				idx := e.eval(st, x.Index)
 				e.record(st, "index", x.X, idx, x.Pos())
+				if idx.Lin != nil && e.elemForms {
+					return Val{Opaque: exprStr(x.X) + "[" + idx.Lin.String() + "]"}
+				}
 			}
 		}
 		return Val{Opaque: exprStr(x)}
@@ -659,6 +669,16 @@ func (e *symEnv) eval(st *symState, x ast.Expr) Val {
 		}
 		if x.High != nil {
 			e.record(st, "hi", x.X, e.eval(st, x.High), x.Pos())
+		}
+		if e.elemForms {
+			lo, hi := "", ""
+			if x.Low != nil {
+				lo = e.eval(st, x.Low).String()
+			}
+			if x.High != nil {
+				hi = e.eval(st, x.High).String()
+			}
+			return Val{Opaque: exprStr(x.X) + "[" + lo + ":" + hi + "]"}
 		}
 		return Val{Opaque: exprStr(x)}
 	}
@@ -756,7 +776,9 @@ func (e *symEnv) assign(st *symState, lhs ast.Expr, v Val) {
 	}
 	if key == "" {
 		if ix, ok := ast.Unparen(lhs).(*ast.IndexExpr); ok {
-			e.record(st, "index", ix.X, e.eval(st, ix.Index), ix.Pos())
+			idx := e.eval(st, ix.Index)
+			e.record(st, "index", ix.X, idx, ix.Pos())
+			st.calls = append(st.calls, fmt.Sprintf("store %s[%s] = %s", exprStr(ix.X), idx.String(), v.String()))
 			return
 		}
 		e.problem("unsupported assignment target %s", exprStr(lhs))
@@ -853,10 +875,23 @@ func (e *symEnv) exec(st *symState, s ast.Stmt) []*symState {
 				e.finish(st, "panic", nil, s.Pos())
 				return nil
 			}
-			for _, a := range call.Args {
-				e.eval(st, a)
+			if e.resolve != nil {
+				e.cur = st
+				if v, ok := e.resolve(call); ok {
+					st.calls = append(st.calls, "resolved:"+v.String())
+					return []*symState{st}
+				}
 			}
-			st.calls = append(st.calls, exprStr(call.Fun))
+			var argv []string
+			for _, a := range call.Args {
+				av := e.eval(st, a)
+				argv = append(argv, av.String())
+			}
+			if isBuiltinCall(e.info, call, "copy") {
+				st.calls = append(st.calls, "copy("+strings.Join(argv, ", ")+")")
+			} else {
+				st.calls = append(st.calls, exprStr(call.Fun))
+			}
 			return []*symState{st}
 		}
 		e.eval(st, s.X)
@@ -1120,4 +1155,128 @@ func holdsOn(env *symEnv, cube Cube, f *F) (bool, bool) {
 	all := append(append(Cube{}, env.base...), cube...)
 	sat, dec := satF(all, fNotOf(f))
 	return !sat && dec, dec
+}
+
+func isUTVPI(a *Lin) bool {
+	switch len(a.C) {
+	case 0, 1:
+		return true
+	case 2:
+		for _, k := range a.C {
+			if k != 1 && k != -1 {
+				return false
+			}
+		}
+		return true
+	}
+	return false
+}
+
+func gcd64(a, b int64) int64 {
+	if a < 0 {
+		a = -a
+	}
+	if b < 0 {
+		b = -b
+	}
+	for b != 0 {
+		a, b = b, a%b
+	}
+	return a
+}
+
+// normLin divides by the gcd of the coefficients and tightens the constant
+// (integer solutions only):  a.x + c <= 0  ==>  (a/g).x + ceil(c/g) <= 0.
+func normLin(a *Lin) *Lin {
+	var g int64
+	for _, k := range a.C {
+		g = gcd64(g, k)
+	}
+	if g <= 1 {
+		return a
+	}
+	r := &Lin{C: map[string]int64{}}
+	for s, k := range a.C {
+		r.C[s] = k / g
+	}
+	// ceil(c/g)
+	q := a.K / g
+	if a.K%g != 0 && a.K > 0 {
+		q++
+	}
+	r.K = q
+	return r
+}
+
+// feasibleFM: Fourier-Motzkin elimination with integer tightening.  A result of
+// false is a proof of unsatisfiability over the integers; true means no
+// contradiction was derived (satisfiable over the rationals).
+func feasibleFM(cube Cube) bool {
+	cons := make([]*Lin, 0, len(cube))
+	for _, a := range cube {
+		cons = append(cons, normLin(a))
+	}
+	for iter := 0; iter < 12; iter++ {
+		// constants
+		vars := map[string][2]int{}
+		for _, a := range cons {
+			if len(a.C) == 0 && a.K > 0 {
+				return false
+			}
+			for s, k := range a.C {
+				v := vars[s]
+				if k > 0 {
+					v[0]++
+				} else {
+					v[1]++
+				}
+				vars[s] = v
+			}
+		}
+		if len(vars) == 0 {
+			return true
+		}
+		// pick the variable with the fewest combinations
+		best, bestCost := "", int(^uint(0)>>1)
+		var names []string
+		for s := range vars {
+			names = append(names, s)
+		}
+		sort.Strings(names)
+		for _, s := range names {
+			v := vars[s]
+			if cost := v[0] * v[1]; cost < bestCost {
+				best, bestCost = s, cost
+			}
+		}
+		var pos, neg, rest []*Lin
+		for _, a := range cons {
+			switch k := a.C[best]; {
+			case k > 0:
+				pos = append(pos, a)
+			case k < 0:
+				neg = append(neg, a)
+			default:
+				rest = append(rest, a)
+			}
+		}
+		for _, p := range pos {
+			for _, n := range neg {
+				kp, kn := p.C[best], -n.C[best]
+				comb := p.scale(kn).add(n.scale(kp))
+				delete(comb.C, best)
+				rest = append(rest, normLin(comb))
+			}
+		}
+		if len(rest) > 4000 {
+			return true
+		}
+		cons = rest
+	}
+	for _, a := range cons {
+		if len(a.C) == 0 && a.K > 0 {
+			return false
+		}
+	}
+	return true
 }
